@@ -97,6 +97,8 @@ type Recorder struct {
 	extra       map[string]any
 	assumptions []string
 	inconcl     []string
+	pmu     sync.Mutex
+	pending *os.File
 }
 
 const maxSamplesPerLabel = 3
@@ -282,11 +284,58 @@ type Replay struct {
 	Tier   string          `json:"tier"`
 	Note   string          `json:"note,omitempty"`
 	GoArch string          `json:"goarch,omitempty"` // set when the failing run was not the default 64-bit build
+	Go     string          `json:"go,omitempty"`     // toolchain that built the failing process
 }
 
 // SaveReplay (over)writes the replay file of this process for the property.
 // rapid re-runs the minimal failing case last, so the file left behind is the
 // shrunk counterexample.
+// Pending journals the case that is about to be evaluated (one file per process, overwritten in place,
+// removed when the process ends normally). If the process is killed by the Go runtime itself while a
+// case runs (a fatal error that no recover can catch: corrupted heap, concurrent map access inside the
+// library), the driver finds the case here.
+func (r *Recorder) Pending(kind string, c any) {
+	b, e := json.Marshal(c)
+	if e != nil {
+		return
+	}
+	rp := Replay{Prop: r.Prop, Kind: kind, Case: b, Error: "the process was killed by a fatal error of the Go runtime while this case was running", Seed: r.Env.Seed, Tier: r.Env.Tier, Go: runtime.Version()}
+	if runtime.GOARCH != "amd64" {
+		rp.GoArch = runtime.GOARCH
+	}
+	out, _ := json.Marshal(rp)
+	r.pmu.Lock()
+	defer r.pmu.Unlock()
+	if r.pending == nil {
+		dir := filepath.Join(r.Env.Out, "replays")
+		os.MkdirAll(dir, 0o755)
+		f, err := os.OpenFile(r.PendingPath(), os.O_CREATE|os.O_RDWR|os.O_TRUNC, 0o644)
+		if err != nil {
+			return
+		}
+		r.pending = f
+	}
+	if _, err := r.pending.WriteAt(out, 0); err == nil {
+		r.pending.Truncate(int64(len(out)))
+	}
+}
+
+// PendingPath names the journal file of this process.
+func (r *Recorder) PendingPath() string {
+	return filepath.Join(r.Env.Out, "replays", fmt.Sprintf("%s-%s-%02d.pending.json", r.Prop, r.Env.Phase, r.Env.Shard))
+}
+
+// ClearPending removes the journal (normal end of the process).
+func (r *Recorder) ClearPending() {
+	r.pmu.Lock()
+	defer r.pmu.Unlock()
+	if r.pending != nil {
+		r.pending.Close()
+		r.pending = nil
+	}
+	os.Remove(r.PendingPath())
+}
+
 func (r *Recorder) SaveReplay(kind string, c any, err error) string {
 	b, e := json.Marshal(c)
 	if e != nil {
@@ -296,6 +345,7 @@ func (r *Recorder) SaveReplay(kind string, c any, err error) string {
 	if runtime.GOARCH != "amd64" {
 		rp.GoArch = runtime.GOARCH
 	}
+	rp.Go = runtime.Version()
 	out, _ := json.MarshalIndent(rp, "", " ")
 	dir := filepath.Join(r.Env.Out, "replays")
 	os.MkdirAll(dir, 0o755)
